@@ -1023,6 +1023,7 @@ def o_pp1(chk, dadi, inp):
     pdfp = inp['pdf_params']; pp = inp['point_masses']; demo = FUNCS[inp['demo']] if inp.get('demo') else None
     params = list(pdfp) + [v for pr in pp for v in pr]
     gs0 = [float(g) for g in c.gammas]
+    S0 = np.asarray(c.spectra, dtype=float).copy()
     cont = data_of(c.integrate(pdfp, None, sel, theta, None))
     exp = (1 - sum(p for p, _ in pp)) * cont
     for p, g in pp:
@@ -1070,6 +1071,23 @@ def o_pp1(chk, dadi, inp):
         if relerr(got2, exp * (th2 / theta)) > 1e-9:
             chk.fail('Cache1D.integrate_point_pos:theta', 'second call with theta=%g is not theta2/theta1 times the first' % th2,
                      dict(inp, got=small(got2), expected=small(exp * (th2 / theta))))
+    # computing a spectrum on the fly must leave everything that was cached before usable: the continuous part, and a point mass at a
+    # gamma that was cached up front (through the API; where the cache keeps things is its own business)
+    if demo is not None and any(g not in gs0 for _, g in pp):
+        chk.l3(('pp1:after-on-the-fly', len(pp)))
+        try:
+            cont2 = data_of(c.integrate(pdfp, None, sel, theta, None))
+            if relerr(cont2, cont) > 1e-12:
+                chk.fail('Cache1D.integrate:after-on-the-fly', 'Cache1D.integrate changes after integrate_point_pos computed the spectrum of gamma=%s on the fly (rel err %.3g)'
+                         % ([g for _, g in pp if g not in gs0], relerr(cont2, cont)), dict(inp, got=small(cont2), expected=small(cont))); return
+            for g in [g for g in gs0 if g > 0][-1:]:
+                got3 = data_of(c.integrate_point_pos(list(pdfp) + [0.5, g], None, sel, theta, demo_sel_func=None, Npos=1))
+                exp3 = 0.5 * cont + 0.5 * theta * S0[gs0.index(g)]
+                if relerr(got3, exp3) > 1e-9:
+                    chk.fail('Cache1D.integrate_point_pos:after-on-the-fly', 'a point mass at gamma=%g, cached up front, gives a different spectrum after another gamma was computed on the fly (rel err %.3g)'
+                             % (g, relerr(got3, exp3)), dict(inp, got=small(got3), expected=small(exp3))); return
+        except Exception as e:
+            chk.fail('Cache1D.integrate_point_pos:after-on-the-fly:%s' % type(e).__name__, '%s: %s' % (type(e).__name__, e), inp)
 
 # ------------------------------------------------------------------ 2-D region masses from distribution functions
 def _norm_cdf(z):
